@@ -106,16 +106,16 @@ class Ext:
         return d
 
     # ---- one call: impl vs dense, then model lines per batch slice -------------------------------------------
-    def compare(self, cell, what, impl_thunk, dense_thunk, payload, strict_raise=True):
+    def compare(self, cell, what, impl_thunk, dense_thunk, payload, strict_raise=True, accept_ok=False):
         """returns the dense result if implementation and dense torch agree on a value, else None"""
         chk = self.chk
         io, do = outcome(impl_thunk), outcome(dense_thunk)
         chk.case(f"{cell} seed={self.xseed}", nontrivial=io[0] == "ok")
         if do[0] == "raise":
-            if io[0] == "ok":
+            if io[0] == "ok" and not accept_ok:
                 chk.violation(cell + "/accepts", f"{what}: dense torch raises {do[1]} but the operator call returns a value", payload)
             else:
-                chk.count("ext:both-raise")
+                chk.count("ext:dense-rejects:" + ("impl-ok" if io[0] == "ok" else "impl-raises"))
             return None
         if io[0] == "raise":
             if strict_raise:
@@ -186,6 +186,37 @@ class Ext:
                   ("torch.Tensor.add", lambda x, y: x.add(y), None), ("torch.Tensor.sub", lambda x, y: x.sub(y), None),
                   ("torch.Tensor.mul", lambda x, y: x.mul(y), None), ("torch.Tensor.sub", lambda x, y: x.sub(y, alpha=al), al),
                   ("py:-", lambda x, y: x - y, None), ("py:+", lambda x, y: x + y, None), ("py:*", lambda x, y: x * y, None)]
+            # falsy alpha values (0, 0.0, tensor(0.), False) are values: the result is the first operand; also with an operator second
+            z = [("int", 0), ("float", 0.0), ("tensor", torch.tensor(0.0)), ("bool", False)]
+            from linear_operator.operators import DenseLinearOperator as _D
+            Bt = imat(rng, *batch, n, k)
+            for znm, zv in z:
+                for fkey, fn in (("torch.add", lambda x, y: torch.add(x, y, alpha=zv)), ("torch.sub", lambda x, y: torch.sub(x, y, alpha=zv)),
+                                 ("torch.Tensor.add", lambda x, y: x.add(y, alpha=zv)), ("torch.Tensor.sub", lambda x, y: x.sub(y, alpha=zv)),
+                                 ("method.add", lambda x, y: x.add(y, alpha=zv)), ("method.sub", lambda x, y: x.sub(y, alpha=zv))):
+                    for pos, okind in (("second", "tensor"), ("first", "tensor"), ("first", "op-dense")):
+                        if fkey.startswith("torch.Tensor") and pos == "first":
+                            continue
+                        if fkey.startswith("method") and pos == "second":
+                            continue
+                        cell = base.format(f"{fkey}+alpha0:{znm}/{pos}/{okind}")
+                        what = f"{fkey}(alpha={zv!r}) {pos} {okind} ({name})"
+                        if pos == "second":
+                            Dn = self.compare(cell, what, lambda: fn(Bt, A), lambda: fn(Bt, Ad), pl(), strict_raise=False, accept_ok=True)
+                        elif okind == "tensor":
+                            Dn = self.compare(cell, what, lambda: fn(A, Bt), lambda: fn(Ad, Bt), pl(), strict_raise=False, accept_ok=True)
+                        else:
+                            Dn = self.compare(cell, what, lambda: fn(A, _D(Bt)), lambda: fn(Ad, Bt), pl(), strict_raise=False, accept_ok=True)
+                        if Dn is not None:
+                            chk.count("ext:alpha0:agree-with-dense")
+                            first = Bt if pos == "second" else Ad
+                            if not torch.equal(Dn, first):
+                                chk.proof_break("harness", f"ext: dense torch {fkey}(alpha=0) is not the first operand")
+                            if okind == "tensor" and not fkey.startswith("method"):
+                                for (idx, ts), (_, as_), (_, ds) in zip(slices(Bt, batch), slices(Ad, batch), slices(Dn, batch)):
+                                    x, y = (ts, as_) if pos == "second" else (as_, ts)
+                                    xa, ya = ("t", arg) if pos == "second" else (arg, "t")
+                                    self.ms(f"valr {fkey} {xa} {ya} 0 {fmtq(x)} {fmtq(y)}", "ok " + fmtq(ds), cell + "/model", pl())
             for kind, T in kinds:
                 Tb = T.expand(*batch, n, k)
                 for fkey, fn, a in ew:
